@@ -39,7 +39,7 @@ FINALLY = ["WorktreeRemove", "Prune", "BranchDelete"]
 CLEAN_AN = ["static", "inspect-off", "inspect-ignored"]
 ACTIONS = ["LatestTag", "RepoRoot", "AssertRepo", "MkTmp", "WorktreeAdd", "EnterTry", "Find", "Analyse", "ExtensionHook", "ResolveAliases",
            "Return", "WorktreeRemove", "Prune", "BranchDelete", "RmTmp", "EndLoad", "LoadWT", "Diff", "Interrupt", "Finish"]
-CLAUSES = ["head", "status", "branches", "userbranch", "worktrees", "tmpdirs", "lines", "location"]
+CLAUSES = ["head", "status", "worktree-files", "branches", "userbranch", "worktrees", "tmpdirs", "lines", "ordering", "outcome", "location"]
 
 
 def tset(xs) -> str:
@@ -150,6 +150,8 @@ def judge(run: Run, r: dict, spec_case: dict | None, domain: str, stats: dict):
     for b in r["bad"]:
         ph = by_branch.get(b.get("branch"))
         step, fault = cs.get(ph, first) if ph is not None else first
+        step, fault = {"ordering": ("ResolveAliases", "after-worktree-removal"), "outcome": ("Find", "absent-package-loaded"),
+                       "worktree-files": (step, fault) if step != "-" else ("Find", "user-tree-written")}.get(b["clause"], (step, fault))
         sig = {"clause": b["clause"], "step": step, "fault": fault, "op": plan["op"], "analysis": an_name(plan)}
         what = (f"{plan['op']}(ref={plan['ref1']!r}{'' if plan['op'] == 'load' else ', base_ref=' + repr(plan['ref2'])}, {an_name(plan)}, interrupts={[(i['phase'], i['at']) for i in r['intrs']]}) "
                 f"-> {r['outcome']}: {b['what']} [cleanup broke at {step}/{fault}]")
@@ -160,7 +162,7 @@ def judge(run: Run, r: dict, spec_case: dict | None, domain: str, stats: dict):
             if stats["drift"] <= 5:
                 run.note(f"drift: {k} = {r[k]} for plan {plan} intrs {r['intrs']}")
     if spec_case is not None:
-        real_leak = any(b["clause"] in ("head", "status", "branches", "userbranch", "worktrees", "tmpdirs") for b in r["bad"])
+        real_leak = any(b["clause"] in ("head", "status", "worktree-files", "branches", "userbranch", "worktrees", "tmpdirs") for b in r["bad"])
         if real_leak == spec_case["untouched"] or r["outcome"] != spec_case["outcome"] or r["exitcode"] != spec_case["exitcode"]:
             stats["drift"] += 1
             if stats["drift"] <= 5:
